@@ -97,7 +97,12 @@ ApplyEv(m, r, ids) ==
                ELSE IF ~whole THEN << Flag("C01", "group is not exactly the buffered records of its sequence in push order") >>
                ELSE << >>
         f02 == IF buffered /\ ~isHead
-               THEN << Flag("C02", "delivered event is not the lowest undelivered sequence") >> ELSE << >>
+               THEN << Flag("C02", "delivered event is not the lowest undelivered sequence") >>
+               \* records delivered before come again, behind higher-numbered events: not a late arrival (nothing new
+               \* was pushed for that number), plain disorder
+               ELSE IF known /\ oneSeq /\ ~fresh /\ m.hasLast /\ s < m.last
+               THEN << Flag("C02", "an event that was delivered before is delivered again after higher-numbered events") >>
+               ELSE << >>
         \* eviction cause, outside Close
         overflow == Cardinality(DOMAIN m.und) > m.max
         cause == ~buffered \/ r.op = "close" \/ s \in m.comp \/ overflow
